@@ -14,7 +14,8 @@
    pairwise-distinct payloads under the race detector, with pooled buffers
    poisoned on release. *)
 From Coq Require Import List NArith Bool.
-From Connect Require Import Bytes Pool.
+From Connect Require Import Bytes Generated Pool.
+From Connect Require Duplex.
 Import ListNotations.
 
 (* For every disciplined program, every initial content of every buffer and
@@ -44,3 +45,17 @@ Theorem use_after_put_is_observable :
   run (fun i h => if Nat.eqb i 3 then Some [Byte.xdd] else None) 0 [] (fun _ => []) [Get 0; Append 0 data; Put 0; Out 0]
   <> run quiet 0 [] (fun _ => []) [Get 0; Append 0 data; Put 0; Out 0].
 Proof. split; [exact use_after_put_not_disciplined | exact use_after_put_interferes]. Qed.
+
+(* the state shared between user goroutines and the request goroutine of one
+   call (duplex_http_call.go) is only touched under errMu, through sync.Once, or
+   on either side of close(responseReady): facts extracted from the source by
+   the translator on every run; the consequences for every interleaving are in
+   Props/C14.v *)
+Theorem duplex_shared_state_synchronised :
+  duplex_err_only_under_mutex = true /\
+  duplex_response_written_only_in_make_request = true /\
+  duplex_response_read_only_after_ready = true /\
+  duplex_ready_closed_by_defer_in_make_request = true /\
+  duplex_goroutine_started_through_once = true.
+Proof. exact Duplex.source_synchronisation_facts. Qed.
+Print Assumptions duplex_shared_state_synchronised.
